@@ -184,6 +184,9 @@ pub fn catalogue(tier: Tier) -> Vec<ArchSpec> {
     // listfile present (also a stored, protected file)
     push("crc", 0, true, Attrs::None, true, false, false, false, "small");
     push("afull", 1, false, Attrs::Full, true, false, false, false, "small");
+    // ... with the names that look like internal files at one end (whole-archive verification walks the listfile)
+    push("acrc32", 0, false, Attrs::Crc32, true, false, false, false, "plain");
+    push("afull", 3, false, Attrs::Full, true, false, false, false, "plain");
     // weak signature
     push("signed", 0, false, Attrs::None, false, false, true, false, "tiny");
     push("signed", 0, false, Attrs::None, true, false, true, true, "tiny");
